@@ -328,10 +328,13 @@ class Compiler:
             "set_where": None
         }
 
-        code = self.compile_file(file, link_base["promise"], link_base)
-
-        if not link_base["promise"].settled:
-            link_base["promise"].settle(addr)
+        try:
+            code = self.compile_file(file, link_base["promise"], link_base)
+        finally:
+            # Also when compilation of the included file is aborted by an
+            # error: its labels are still resolved at the end
+            if not link_base["promise"].settled:
+                link_base["promise"].settle(addr)
 
         return code
 
